@@ -3011,7 +3011,9 @@ class Mailbox:
         await mbox.mailbox.aclear()
         mbox.num_msgs = 0
         mbox.num_recent = 0
+        mbox.msg_keys = []
         mbox.uids = []
+        mbox._rebuild_index_dicts()
         mbox.sequences = defaultdict(set)
 
         # If the mailbox has any active clients we set their selected
